@@ -16,8 +16,8 @@ EXPLANATION = ('Inductive argument over the pipeline, each step a static rule: U
 ASSUMPTIONS = ['a released resource (emptied slot, cancelled task) delivers nothing: C01.P3, C19.H3']
 
 U1_EXEMPT = {
-    '<ops::ref_count::ShareOp<\'a, Item, Err, S> as Observable>::actual_subscribe|connect': 'the connection is owned by the shared subject and released by the last RefCountSubscription (C11.P-c)',
-    '<ops::ref_count::ShareOpThreads<Item, Err, S> as Observable>::actual_subscribe|connect': 'same (thread-safe instance)',
+    '<ops::ref_count::ShareOp as Observable>::actual_subscribe|connect': 'the connection is owned by the shared subject and released by the last RefCountSubscription (C11.P-c)',
+    '<ops::ref_count::ShareOpThreads as Observable>::actual_subscribe|connect': 'same (thread-safe instance)',
 }
 CONTROLS = [
     'U1|<verif_controls::DropHandleObserver<O, SD> as Observer>::next',
@@ -87,7 +87,7 @@ def u1(cx):
             n_res += 1
             V = strip(p['value'])
             what = 'connect' if p['name'].endswith('connect') else ('task handle' if p['name'] == SCHEDULE else 'subscription')
-            if (label + '|connect') in U1_EXEMPT and what == 'connect':
+            if (roles.stable_label(cx, fn) + '|connect') in U1_EXEMPT and what == 'connect':
                 continue
 
             def has(e):
